@@ -21,6 +21,7 @@ func init() {
 			"(rejects) convertSlice/convertMap/convertStruct touch the destination only across a test that the source has that kind; " +
 			"(elementwise) convertSlice converts index i into index i for 0 <= i < len(source) after SetLen(len(source)); convertStruct pairs fields whose case-folded names are equal; " +
 			"(errors) a failing element conversion fails the whole conversion. " +
+			"(integers) once the source integer was extracted the conversion is not refused; (errors) also at every caller of the package. " +
 			"Not decided: equality for all values, widening/narrowing semantics (SetInt truncation), converting back.",
 		Assumptions: []string{"reflect behaves as documented"},
 		Run:         runC20,
